@@ -1,9 +1,10 @@
 """C15 - queuing sink counters are consistent with what happened."""
 from . import queuing as A
+from . import queuing2 as B
 from .qmodel import QModel
 
 EXPLANATION = ('C15-R1 submitted += 1 exactly on the accepted edge; C15-R2 drained += 1 once per dequeued metric before the '
-               'task, and the task hands the metric to the wrapped sink exactly once; C15-R3 counters change only by fetch_add(1) from one writer site each; C15-R4 queued() cannot wrap '
+               'task, and the task hands the metric to the wrapped sink exactly once and is invoked from the counting loop only; C15-R3 counters change only by fetch_add(1) from one writer site each; C15-R4 queued() cannot wrap '
                '(linear-form entailment of the dominating guard).')
 
 
@@ -17,3 +18,5 @@ def check(ctx, rep):
     A.rule_counters(m, rep)
     # drained counts hand-offs to the wrapped sink: one emit per dequeued (= counted) metric
     A.rule_task_closure(m, rep, 'R2', parts=('once',))
+    # ... and nothing but the counting loop hands metrics to the task
+    B.rule_task_only_in_run(m, rep, 'R2')
